@@ -38,6 +38,10 @@ def storage_history(case):
     try:
         ts = [_u.ImplicitVRLittleEndian, _u.ExplicitVRLittleEndian][case['ts']]
         before = {}
+        for n in case.get('pre', []):        # files an earlier run of the server left in the directory
+            with open(os.path.join(d, n), 'wb') as fh:
+                fh.write(b'OLD ' + n.encode())
+            before[n] = b'OLD ' + n.encode()
         for k, uid in enumerate(case['uids']):
             cs = pydicom.Dataset(); cs.AffectedSOPClassUID = IMG; cs.AffectedSOPInstanceUID = uid
             ctx = ap.PContextDef(1, _u.UID(IMG), ts)
@@ -103,11 +107,14 @@ def stack_case(case):
                 if case['source'] == 'file':
                     path = os.path.join(src_dir, 'src%d.dcm' % k)
                     meta = pydicom.dataset.FileMetaDataset()
-                    meta.MediaStorageSOPClassUID = IMG; meta.MediaStorageSOPInstanceUID = ds.SOPInstanceUID
+                    incomplete = (k + case['seed']) % 3 == 2     # a file whose meta header lacks the instance UID
+                    meta.MediaStorageSOPClassUID = IMG
+                    if not incomplete:
+                        meta.MediaStorageSOPInstanceUID = ds.SOPInstanceUID
                     meta.TransferSyntaxUID = ts; meta.ImplementationClassUID = '1.2.3.4'
                     fds = pydicom.dataset.FileDataset(path, ds, file_meta=meta, preamble=b'\0' * 128)
                     fds.is_implicit_VR = ts.is_implicit_VR; fds.is_little_endian = ts.is_little_endian
-                    fds.save_as(path, write_like_original=False)
+                    fds.save_as(path, write_like_original=incomplete)
                     out.append(int(store(path, k + 1)))
                 else:
                     out.append(int(store(ds, k + 1)))
@@ -167,9 +174,9 @@ def run(chk):
     rnd = common.rng('c15')
     chk.rule = ('(S1) the real _get_storage_file on a real temporary directory over histories of up to 8 stores with repeated '
                 'instance UIDs (the same instance up to 5 times, interleaved with others), directory snapshot compared after '
-                'every store; (S3) real storage_scu -> real storage_scp over a socket pair with real provider threads: seeded '
+                'every store, also with files of an earlier run already present; (S3) real storage_scu -> real storage_scp over a socket pair with real provider threads: seeded '
                 'data sets (a few bytes to many fragments, nested sequences, odd-length values) x 3 transfer syntaxes x '
-                'asymmetric maximum lengths x memory/file source x temp-file/directory reception x handler outcomes (success, '
+                'asymmetric maximum lengths x memory/file source (every third file without the instance UID in its meta header) x temp-file/directory reception x handler outcomes (success, '
                 'warning, failure, EventHandlingError) x repeated instance UIDs; the handler\'s bytes are re-read with '
                 'pydicom and compared with what was sent; non-trivial = all')
     chk.trusted += ['harness/s3.py; pydicom for data set encoding and file reading']
@@ -178,6 +185,10 @@ def run(chk):
                  ['9.1', '9.2', '9.3'], ['7.7', '7.7', '8.8', '7.7', '7.7', '8.8', '8.8', '7.7']):
         for ts in (0, 1):
             cases.append({'kind': 'dir', 'uids': hist, 'ts': ts})
+    # the directory already holds files of an earlier run (another process): they must survive too
+    cases.append({'kind': 'dir', 'uids': ['1.2.3'], 'ts': 0, 'pre': ['1.2.3.dcm']})
+    cases.append({'kind': 'dir', 'uids': ['1.2.3', '1.2.3'], 'ts': 1, 'pre': ['1.2.3.dcm', '1.2.3.dcm_1']})
+    cases.append({'kind': 'dir', 'uids': ['5.5', '1.2.3', '5.5'], 'ts': 0, 'pre': ['1.2.3.dcm', '5.5.dcm', 'other.txt']})
     seed = 0
     limits = [(16384, 16384), (128, 65536), (65536, 128), (0, 1024), (1024, 0), (24, 300), (300, 64)]
     n = 14 if tier == 'quick' else 400
